@@ -1,1 +1,389 @@
-From TT Require Import Lib.Base Lib.Sort Model.Reactor Model.Spinner Gen.Spinnertabs Spec.C15 Corr.C15.
+(* C15 - proofs about Model/Spinner.v over Model/Reactor.v: one run() of the model from a
+   clean reactor meets the statement for EVERY function program, timeout, oracle and
+   reactor mode (invariant over the event loop), hence every history of runs does. *)
+From Coq Require Import Permutation.
+From TT Require Import Lib.Base Lib.Sort Model.Reactor Model.Spinner Gen.Spinnertabs Spec.C15 Corr.C15 Proof.C15Spec.
+
+Notation call := (dcall action).
+Notation rtor := (reactor action).
+
+(* ================= the delayed-call queue ================= *)
+Lemma min_time_spec (q : list call) m : min_time q = Some m ->
+  (exists c, In c q /\ dc_time c = m) /\ forall c, In c q -> m <= dc_time c.
+Proof.
+  revert m; induction q as [|c r IH]; simpl; intros m H; [discriminate|].
+  injection H as <-. destruct (min_time r) as [m'|] eqn:E.
+  - destruct (IH m' eq_refl) as [[c0 [Hin Ht]] Hle]. split.
+    + destruct (Nat.min_spec (dc_time c) m') as [[_ ->]|[_ ->]].
+      * exists c; split; [left|]; reflexivity.
+      * exists c0; split; [right; exact Hin | exact Ht].
+    + intros c' [->|Hc']; [lia|]. specialize (Hle c' Hc'). lia.
+  - destruct r; [|simpl in E; discriminate]. split.
+    + exists c; split; [left|]; reflexivity.
+    + intros c' [->|[]]. lia.
+Qed.
+
+Lemma min_time_some (q : list call) : q <> [] -> exists m, min_time q = Some m.
+Proof. destruct q; [congruence|]. intros _. simpl. eexists; reflexivity. Qed.
+
+Lemma candidates_in (q : list call) c : In c (candidates q) ->
+  In c q /\ forall c', In c' q -> dc_time c <= dc_time c'.
+Proof.
+  unfold candidates. destruct (min_time q) as [m|] eqn:E; [|intros []].
+  intro H. apply filter_In in H as [Hin Ht]. apply Nat.eqb_eq in Ht.
+  destruct (min_time_spec q m E) as [_ Hle]. split; [exact Hin|].
+  intros c' Hc'. rewrite Ht. apply Hle; exact Hc'.
+Qed.
+
+Lemma candidates_ne (q : list call) : q <> [] -> candidates q <> [].
+Proof.
+  intro H. unfold candidates. destruct (min_time_some q H) as [m E]. rewrite E.
+  destruct (min_time_spec q m E) as [[c [Hin Ht]] _].
+  intro F. assert (Hc : In c (filter (fun c => Nat.eqb (dc_time c) m) q)).
+  { apply filter_In; split; [exact Hin | apply Nat.eqb_eq; exact Ht]. }
+  rewrite F in Hc. exact Hc.
+Qed.
+
+Lemma nth_mod_in {A} (l : list A) k d : l <> [] -> In (nth (k mod length l) l d) l.
+Proof.
+  intro H. apply nth_In. apply Nat.mod_upper_bound. destruct l; [congruence | simpl; discriminate].
+Qed.
+
+Lemma choose_in orc (cands : list call) c orc' : choose orc cands = Some (c, orc') -> In c cands.
+Proof.
+  unfold choose. destruct cands as [|c0 [|c1 r]]; [discriminate| |].
+  - intro H; injection H as <- _. left; reflexivity.
+  - destruct orc as [|k orc0]; intro H; injection H as <- _; [left; reflexivity|].
+    exact (nth_mod_in (c0 :: c1 :: r) k c0 ltac:(discriminate)).
+Qed.
+
+Lemma choose_some orc (cands : list call) : cands <> [] -> exists c orc', choose orc cands = Some (c, orc').
+Proof.
+  unfold choose. destruct cands as [|c0 [|c1 r]]; [congruence| |]; intros _.
+  - eexists; eexists; reflexivity.
+  - destruct orc; eexists; eexists; reflexivity.
+Qed.
+
+Lemma pop_from_spec cands (r : rtor) c r' : pop_from cands r = Some (c, r') ->
+  In c cands /\ exists nw orc',
+    r' = mkReactor nw (nextseq r) (remove_seq (dc_seq c) (queue r)) (hooks r) (readers r) (running r)
+                   (really_stopped r) orc'.
+Proof.
+  unfold pop_from. destruct (choose (oracle r) cands) as [[c0 orc']|] eqn:E; [|discriminate].
+  intro H; injection H as <- <-. split; [eapply choose_in; exact E|].
+  eexists; eexists; reflexivity.
+Qed.
+
+Lemma pop_from_some cands (r : rtor) : cands <> [] -> exists c r', pop_from cands r = Some (c, r').
+Proof.
+  intro H. unfold pop_from. destruct (choose_some (oracle r) cands H) as [c [orc' ->]].
+  eexists; eexists; reflexivity.
+Qed.
+
+Lemma in_remove_seq s (q : list call) c : In c (remove_seq s q) <-> In c q /\ dc_seq c <> s.
+Proof.
+  unfold remove_seq. rewrite filter_In, negb_true_iff, Nat.eqb_neq. reflexivity.
+Qed.
+
+Lemma remove_seq_length s (q : list call) : length (remove_seq s q) <= length q.
+Proof.
+  unfold remove_seq. induction q as [|a r IH]; simpl; [lia|].
+  destruct (negb (Nat.eqb (dc_seq a) s)); simpl; lia.
+Qed.
+
+Lemma remove_seq_length_lt (q : list call) c : In c q -> length (remove_seq (dc_seq c) q) < length q.
+Proof.
+  induction q as [|a r IH]; simpl; [intros []|]. intros [->|Hin].
+  - rewrite Nat.eqb_refl. simpl. pose proof (remove_seq_length (dc_seq c) r) as H. unfold remove_seq in H.
+    apply Nat.lt_succ_r. exact H.
+  - specialize (IH Hin). unfold remove_seq in IH. destruct (negb (Nat.eqb (dc_seq a) (dc_seq c))); simpl.
+    + apply -> Nat.succ_lt_mono. exact IH.
+    + apply Nat.lt_lt_succ_r. exact IH.
+Qed.
+
+Lemma nodup_remove_seq s (q : list call) : NoDup (map dc_seq q) -> NoDup (map dc_seq (remove_seq s q)).
+Proof.
+  induction q as [|a r IH]; simpl; intro H; [constructor|].
+  inversion H as [|? ? Hn Hr]; subst. destruct (negb (Nat.eqb (dc_seq a) s)); simpl; [|apply IH; exact Hr].
+  constructor; [|apply IH; exact Hr]. intro Hi. apply Hn. apply in_map_iff in Hi as [b [Eb Hb]].
+  apply in_remove_seq in Hb as [Hb _]. apply in_map_iff. exists b; split; assumption.
+Qed.
+
+Lemma nodup_seq_inj (q : list call) a b : NoDup (map dc_seq q) -> In a q -> In b q -> dc_seq a = dc_seq b -> a = b.
+Proof.
+  induction q as [|c r IH]; simpl; intros H Ha Hb E; [destruct Ha|].
+  inversion H as [|? ? Hn Hr]; subst.
+  destruct Ha as [->|Ha], Hb as [->|Hb]; [reflexivity| | |apply IH; assumption].
+  - exfalso. apply Hn. rewrite E. apply in_map; exact Hb.
+  - exfalso. apply Hn. rewrite <- E. apply in_map; exact Ha.
+Qed.
+
+Lemma remove_seq_notin s (q : list call) : ~ In s (map dc_seq q) -> remove_seq s q = q.
+Proof.
+  induction q as [|a r IH]; simpl; intro H; [reflexivity|].
+  destruct (Nat.eqb (dc_seq a) s) eqn:E.
+  - apply Nat.eqb_eq in E. exfalso; apply H; left; exact E.
+  - simpl. f_equal. apply IH. intro Hi; apply H; right; exact Hi.
+Qed.
+
+Lemma remove_seq_split (q : list call) c : NoDup (map dc_seq q) -> In c q ->
+  exists l1 l2, q = l1 ++ c :: l2 /\ remove_seq (dc_seq c) q = l1 ++ l2.
+Proof.
+  intros Hn Hin. destruct (in_split c q Hin) as [l1 [l2 ->]]. exists l1, l2. split; [reflexivity|].
+  rewrite map_app in Hn. simpl in Hn.
+  pose proof (NoDup_remove_2 _ _ _ Hn) as Hni.
+  unfold remove_seq. rewrite filter_app. simpl. rewrite Nat.eqb_refl. simpl.
+  fold (remove_seq (dc_seq c) l1). fold (remove_seq (dc_seq c) l2).
+  rewrite !remove_seq_notin; [reflexivity| |]; intro H; apply Hni; apply in_or_app; [right|left]; exact H.
+Qed.
+
+Definition seq_in (s : nat) (q : list call) : bool := existsb (fun c => Nat.eqb (dc_seq c) s) q.
+
+Lemma seq_in_spec s q : seq_in s q = true <-> exists c, In c q /\ dc_seq c = s.
+Proof.
+  unfold seq_in. rewrite existsb_exists. split; intros [c [H1 H2]]; exists c; split; try exact H1;
+    apply Nat.eqb_eq; exact H2.
+Qed.
+
+Lemma seq_in_remove_same s q : seq_in s (remove_seq s q) = false.
+Proof.
+  destruct (seq_in s (remove_seq s q)) eqn:E; [|reflexivity].
+  apply seq_in_spec in E as [c [Hin Hs]]. apply in_remove_seq in Hin as [_ Hne]. congruence.
+Qed.
+
+Lemma seq_in_remove_other s s' q : s <> s' -> seq_in s (remove_seq s' q) = seq_in s q.
+Proof.
+  intro Hne. destruct (seq_in s q) eqn:E.
+  - apply seq_in_spec in E as [c [Hin Hs]]. apply seq_in_spec. exists c. split; [|exact Hs].
+    apply in_remove_seq. split; [exact Hin | congruence].
+  - destruct (seq_in s (remove_seq s' q)) eqn:E'; [|reflexivity].
+    apply seq_in_spec in E' as [c [Hin Hs]]. apply in_remove_seq in Hin as [Hin _].
+    assert (seq_in s q = true) by (apply seq_in_spec; exists c; split; assumption). congruence.
+Qed.
+
+(* cancelling everything getDelayedCalls() returned empties the queue *)
+Lemma cancel_all_aux (l : list call) : forall (w : world),
+  (forall c, In c (queue (w_r w)) -> In c l) ->
+  queue (w_r (fold_left (fun w c => set_r (cancel (dc_seq c) (w_r w)) w) l w)) = [].
+Proof.
+  induction l as [|a l IH]; simpl; intros w H.
+  - destruct (queue (w_r w)) as [|c r]; [reflexivity|]. destruct (H c (or_introl eq_refl)).
+  - apply IH. intros c Hc. destruct w as [r st sg fl sp ran re]; destruct r; simpl in *.
+    apply in_remove_seq in Hc as [Hc Hne]. destruct (H c Hc) as [->|Hl]; [congruence | exact Hl].
+Qed.
+
+Lemma fold_cancel_frame (l : list call) : forall (w : world),
+  let w' := fold_left (fun w c => set_r (cancel (dc_seq c) (w_r w)) w) l w in
+  w_stop w' = w_stop w /\ w_sig w' = w_sig w /\ w_flag w' = w_flag w /\ w_sp w' = w_sp w /\ w_ran w' = w_ran w
+  /\ w_reentry w' = w_reentry w /\ readers (w_r w') = readers (w_r w) /\ running (w_r w') = running (w_r w)
+  /\ really_stopped (w_r w') = really_stopped (w_r w) /\ hooks (w_r w') = hooks (w_r w).
+Proof.
+  induction l as [|a l IH]; simpl; intro w; [repeat split|].
+  specialize (IH (set_r (cancel (dc_seq a) (w_r w)) w)). simpl in IH.
+  destruct w as [r st sg fl sp ran re]; destruct r; simpl in *. exact IH.
+Qed.
+
+(* ================= tokens ================= *)
+Definition nt := not_timeout_tok.
+Definition tokc (c : call) : nat := tok_of (dc_act c).
+Definition E (w : world) : list nat := crash_toks (w_ran w).
+
+Lemma crash_toks_app a b : crash_toks (a ++ b) = crash_toks a ++ crash_toks b.
+Proof. unfold crash_toks. apply filter_app. Qed.
+
+Lemma has_app t a b : has t (a ++ b) = has t a || has t b.
+Proof. unfold has. apply existsb_app. Qed.
+
+Lemma filter_nt_remove_timeout s (q : list call) :
+  (forall c, In c q -> dc_seq c = s -> nt (tokc c) = false) ->
+  filter nt (map tokc (remove_seq s q)) = filter nt (map tokc q).
+Proof.
+  induction q as [|a r IH]; simpl; intro H; [reflexivity|].
+  destruct (Nat.eqb (dc_seq a) s) eqn:Es; simpl.
+  - apply Nat.eqb_eq in Es. rewrite (H a (or_introl eq_refl) Es). apply IH.
+    intros c Hc. apply H. right; exact Hc.
+  - rewrite IH; [reflexivity|]. intros c Hc. apply H. right; exact Hc.
+Qed.
+
+Lemma perm_move (q : list call) c ran rd : NoDup (map dc_seq q) -> In c q -> nt (tokc c) = true ->
+  Permutation (filter nt (ran ++ [tokc c]) ++ filter nt (map tokc (remove_seq (dc_seq c) q)) ++ rd)
+              (filter nt ran ++ filter nt (map tokc q) ++ rd).
+Proof.
+  intros Hn Hin Hnt. destruct (remove_seq_split q c Hn Hin) as [l1 [l2 [-> ->]]].
+  rewrite !map_app, !filter_app. simpl. rewrite Hnt.
+  rewrite <- !app_assoc. apply Permutation_app_head. simpl.
+  rewrite !app_assoc. apply Permutation_app_tail.
+  rewrite <- !app_assoc. apply Permutation_cons_app. reflexivity.
+Qed.
+
+Lemma perm_drop0 (q : list call) c ran rd : NoDup (map dc_seq q) -> In c q -> nt (tokc c) = false ->
+  filter nt (ran ++ [tokc c]) ++ filter nt (map tokc (remove_seq (dc_seq c) q)) ++ rd
+  = filter nt ran ++ filter nt (map tokc q) ++ rd.
+Proof.
+  intros Hn Hin Hnt. destruct (remove_seq_split q c Hn Hin) as [l1 [l2 [-> ->]]].
+  rewrite !map_app, !filter_app. simpl. rewrite Hnt. rewrite app_nil_r. reflexivity.
+Qed.
+
+(* ================= one run: the static context and the loop invariant ================= *)
+Record ctx := mkCtx {
+  c_n0 : time;            (* the reactor's clock when run() was called *)
+  c_T : time;
+  c_f : fn;
+  c_s : nat;              (* handle of the timeout call *)
+  c_sig : sigtab;         (* the signal table while the reactor spins *)
+  c_re : option bool;
+  c_saved : sigtab;
+  c_rd : list nat         (* selectables registered by the function *)
+}.
+
+Section OneRun.
+  Variable x : ctx.
+  Notation T := (c_T x).
+  Notation f := (c_f x).
+
+  Definition estar : time := earliest (events T f).
+  Definition mstar : time := c_n0 x + estar.
+
+  Definition legit (c : call) : Prop :=
+    (dc_seq c = c_s x -> dc_act c = ATimeout) /\
+    match dc_act c with
+    | ATimeout => dc_seq c = c_s x /\ dc_time c = c_n0 x + T
+    | AFire o => exists t, f_shape f = Later t o /\ dc_time c = c_n0 x + t
+    | AStopReq => exists st, f_stop f = Some st /\ dc_time c = c_n0 x + st
+    | ANoop t => 10 <= t
+    | ARunFunction _ _ => False
+    end.
+
+  (* every event that can end the run is still scheduled *)
+  Definition present (w : world) : Prop :=
+    forall k t, ev_time T f k = Some t ->
+      exists c, In c (queue (w_r w)) /\ tokc c = k /\ dc_time c = c_n0 x + t.
+
+  Inductive st_ok (w : world) : Prop :=
+  | StA : timeout_pending w = true -> has 0 (E w) = false -> has 1 (E w) = false ->
+          sp_success (w_sp w) = None -> sp_failure (w_sp w) = None -> st_ok w
+  | StB : timeout_pending w = false -> has 0 (E w) = true -> sp_failure (w_sp w) = Some ETimeout -> st_ok w
+  | StC : timeout_pending w = false -> has 0 (E w) = false -> has 1 (E w) = true ->
+          (exists t o, f_shape f = Later t o /\ get_result (w_sp w) = result_of o) -> st_ok w.
+
+  Record Inv (w : world) : Prop := {
+    i_nodup : NoDup (map dc_seq (queue (w_r w)));
+    i_legit : Forall legit (queue (w_r w));
+    i_stop : w_stop w = SFake;
+    i_rs : really_stopped (w_r w) = false;
+    i_hooks : hooks (w_r w) = [];
+    i_rd : readers (w_r w) = c_rd x;
+    i_sig : w_sig w = c_sig x;
+    i_flag : w_flag w = true;
+    i_re : w_reentry w = c_re x;
+    i_junk : sp_junk (w_sp w) = [];
+    i_saved : sp_saved (w_sp w) = c_saved x;
+    i_tc : sp_timeout_call (w_sp w) = Some (c_s x);
+    i_st : st_ok w;
+    i_phase : running (w_r w) = true -> E w = [] /\ sp_spinning (w_sp w) = true /\ present w;
+    i_live : running (w_r w) = true \/ E w <> [];
+    i_early : forall k, In k (E w) -> ev_time T f k = Some estar;
+    i_perm : Permutation (filter nt (w_ran w) ++ filter nt (map tokc (queue (w_r w))) ++ c_rd x) (sched_tokens f)
+  }.
+
+  (* ---- events and their instants ---- *)
+  Lemma ev_time_events k t : ev_time T f k = Some t -> exists r, In (t, r) (events T f).
+  Proof.
+    unfold ev_time, events. destruct k as [|[|[|k]]]; intro H.
+    - injection H as <-. eexists; left; reflexivity.
+    - destruct (f_shape f) as [| t' o |]; try discriminate. injection H as <-.
+      eexists; right; left; reflexivity.
+    - rewrite H. eexists; right. apply in_or_app; right. left; reflexivity.
+    - discriminate.
+  Qed.
+
+  Lemma events_ev_time t : In t (map fst (events T f)) -> exists k, ev_time T f k = Some t.
+  Proof.
+    unfold events. simpl. intros [<-|H]; [exists 0; reflexivity|].
+    rewrite map_app in H. apply in_app_or in H as [H|H].
+    - destruct (f_shape f) as [| t' o |] eqn:Es; simpl in H; try destruct H as [<-|[]]; try destruct H.
+      exists 1. simpl. rewrite Es. reflexivity.
+    - destruct (f_stop f) as [st|] eqn:Es; simpl in H; [destruct H as [<-|[]] | destruct H].
+      exists 2. simpl. exact Es.
+  Qed.
+
+  Lemma estar_least k t : ev_time T f k = Some t -> estar <= t.
+  Proof.
+    intro H. destruct (ev_time_events k t H) as [r Hin].
+    destruct (earliest_spec (events T f) (events_ne T f)) as [_ Hle]. exact (Hle (t, r) Hin).
+  Qed.
+
+  Lemma estar_attained : exists k, ev_time T f k = Some estar.
+  Proof.
+    destruct (earliest_spec (events T f) (events_ne T f)) as [Hin _]. apply events_ev_time. exact Hin.
+  Qed.
+
+  Lemma ev_time_le2 k t : ev_time T f k = Some t -> k <= 2.
+  Proof. destruct k as [|[|[|k]]]; simpl; intro H; try lia. discriminate. Qed.
+
+  (* a legitimate call that can end the run carries its event's instant *)
+  Lemma legit_ev c : legit c -> tokc c <= 2 -> exists t, ev_time T f (tokc c) = Some t /\ dc_time c = c_n0 x + t.
+  Proof.
+    unfold legit, tokc. intros [_ H] Hk. destruct (dc_act c) as [|o| |tk|]; simpl in *.
+    - exists T. split; [reflexivity | apply H].
+    - destruct H as [t [Es Ht]]. exists t. rewrite Es. split; [reflexivity | exact Ht].
+    - destruct H as [st [Es Ht]]. exists st. split; assumption.
+    - lia.
+    - destruct H.
+  Qed.
+
+  (* the first call that ends the run is due at the earliest of the three instants *)
+  Lemma first_time w c : Inv w -> In c (queue (w_r w)) ->
+    (forall c', In c' (queue (w_r w)) -> dc_time c <= dc_time c') ->
+    (E w <> [] -> dc_time c = mstar) ->
+    forall t, ev_time T f (tokc c) = Some t -> dc_time c = c_n0 x + t -> t = estar.
+  Proof.
+    intros HI Hin Hmin HE t Hev Ht.
+    pose proof (estar_least _ _ Hev) as Hle.
+    destruct (E w) as [|e0 er] eqn:EE.
+    - destruct (i_live w HI) as [Hrun|Hne]; [|congruence].
+      destruct (i_phase w HI Hrun) as [_ [_ Hp]].
+      destruct estar_attained as [k Hk]. destruct (Hp k estar Hk) as [c' [Hc' [_ Ht']]].
+      specialize (Hmin c' Hc'). lia.
+    - assert (Hm : dc_time c = mstar) by (apply HE; discriminate). unfold mstar in Hm. lia.
+  Qed.
+
+  (* the Deferred fires at most once *)
+  Lemma count_app_nat (a b : list nat) k : count (a ++ b) k = count a k + count b k.
+  Proof. unfold count. apply count_occ_app. Qed.
+
+  Lemma count_fire_sched : count (sched_tokens f) 1 <= 1.
+  Proof.
+    unfold sched_tokens. rewrite !count_app_nat.
+    rewrite (count_notin (map tok_extra _)), (count_notin (map tok_sel _)).
+    - destruct (f_stop f), (f_shape f); simpl; lia.
+    - intro H. apply in_map_iff in H as [j [Hj _]]. unfold tok_sel in Hj. lia.
+    - intro H. apply in_map_iff in H as [j [Hj _]]. unfold tok_extra in Hj. lia.
+  Qed.
+
+  Lemma count_in_pos (l : list nat) k : In k l -> 1 <= count l k.
+  Proof. intro H. unfold count. apply count_occ_In. exact H. Qed.
+
+  Lemma fire_once w c o : Inv w -> has 1 (E w) = true -> In c (queue (w_r w)) -> dc_act c = AFire o -> False.
+  Proof.
+    intros HI Hh Hin Ha. pose proof (i_perm w HI) as P.
+    assert (Hc : count (filter nt (w_ran w) ++ filter nt (map tokc (queue (w_r w))) ++ c_rd x) 1 <= 1).
+    { unfold count. rewrite (Permutation_count_occ Nat.eq_dec P). apply count_fire_sched. }
+    rewrite !count_app_nat in Hc.
+    assert (H1 : 1 <= count (filter nt (w_ran w)) 1).
+    { apply count_in_pos. apply filter_In. split; [|reflexivity].
+      apply has_In in Hh. unfold E, crash_toks in Hh. apply filter_In in Hh. apply Hh. }
+    assert (H2 : 1 <= count (filter nt (map tokc (queue (w_r w)))) 1).
+    { apply count_in_pos. apply filter_In. split; [|reflexivity].
+      apply in_map_iff. exists c. split; [|exact Hin]. unfold tokc. rewrite Ha. reflexivity. }
+    lia.
+  Qed.
+
+  Lemma st_decided w : st_ok w -> get_result (w_sp w) = decided f (E w).
+  Proof.
+    unfold decided. intros [Hp H0 H1 Hs Hf | Hp H0 Hf | Hp H0 H1 [t [o [Es Hr]]]].
+    - rewrite H0, H1. unfold get_result. rewrite Hf, Hs. reflexivity.
+    - rewrite H0. unfold get_result. rewrite Hf. reflexivity.
+    - rewrite H0, H1, Es. exact Hr.
+  Qed.
+End OneRun.
